@@ -73,6 +73,9 @@ def term(f, o, depth=10):
         if d[0] == "call":
             t = d[2]
             if callee_matches(t, *LEN_CALLS) and t.get("args"):
+                n_ = _array_len(f, t["args"][0])
+                if n_ is not None:
+                    return ("c", n_)                         # the length of an array is part of its type
                 pt = _place_text(f, t["args"][0])
                 return ("len", pt) if pt else ("v", p["local"])
             return ("v", p["local"])
@@ -86,7 +89,34 @@ def term(f, o, depth=10):
         if rv["k"] == "len" or rv["k"] == "ptr_metadata":
             pt = mir.place_str(f, rv["place"]) if rv.get("place") else None
             return ("len", pt) if pt else ("v", p["local"])
+        if rv["k"] == "unop" and rv.get("op") == "PtrMetadata" and str(rv.get("oty", "")).replace("&mut ", "&").startswith("&["):
+            pt = _place_text(f, rv["operand"])              # the length of the slice a reference points to
+            return ("len", pt) if pt else ("v", p["local"])
         return ("v", p["local"])
+    return None
+
+
+def _array_len(f, o, depth=6):
+    """N when the operand is (a reference to / an unsized view of) an array [T; N]"""
+    import re as _re
+    for _ in range(depth):
+        p = mir.op_place(o)
+        if p is None:
+            return None
+        ty = (f.local_ty(p["local"]) or "") if not [e for e in p["proj"] if e["k"] != "deref"] else ""
+        m = _re.match(r"^&?(?:mut )?\[.*; (\d+)\]$", ty.strip())
+        if m:
+            return int(m.group(1))
+        ds = mir.defs_of(f).get(p["local"], [])
+        if len(ds) != 1 or ds[0][0] != "stmt":
+            return None
+        rv = ds[0][3]["rv"]
+        if rv["k"] in ("use", "cast"):
+            o = rv["op"]
+        elif rv["k"] == "ref":
+            o = {"k": "copy", "place": rv["place"]}
+        else:
+            return None
     return None
 
 
@@ -98,6 +128,10 @@ def _binop_term(f, rv, depth):
             return ("add", l, r[1]) if r[1] else l
         if l and r and l[0] == "c":
             return ("add", r, l[1]) if l[1] else r
+    if op == "Sub":
+        l, r = term(f, rv["l"], depth), term(f, rv["r"], depth)
+        if l and r and r[0] == "c":
+            return ("add", l, -r[1]) if r[1] else l          # (x - c; whether it wraps is the subtraction's own obligation)
     return None
 
 
@@ -179,10 +213,18 @@ def edge_facts(f):
                     if i and v:
                         for e in some_edges:
                             out.append((s, e, [("lt", i, ("len", v))]))
-                elif (callee(ct) or "").endswith("Iterator>::next") and "ops::Range<" in " ".join(str(x) for x in ((ct.get("fn") or {}).get("generics") or [])):
+                elif (callee(ct) or "").endswith("::checked_sub") and len(ct.get("args") or []) == 2 and "usize" in (callee(ct) or "") + str(ct.get("argtys")):
+                    # Some(a - c) exactly when c <= a: the payload is below a when c >= 1
+                    A, C = term(f, ct["args"][0]), term(f, ct["args"][1])
+                    if A is not None and C is not None and C[0] == "c":
+                        pay = ("p", "(%s as Some).0" % mir.place_str(f, rv["place"]))
+                        for e in some_edges:
+                            out.append((s, e, [("le", pay, A), ("le", C, A)] + ([("lt", pay, A)] if C[1] >= 1 else [])))
+                elif (callee(ct) or "").endswith("::next") and ("ops::Range<" in (callee(ct) or "") or "ops::Range<" in " ".join(
+                        str(x) for x in ((ct.get("fn") or {}).get("generics") or []))) and "RangeInclusive" not in (callee(ct) or ""):
                     hi = _range_end(f, ct["args"][0])
                     if hi is not None:
-                        pay = ("p", "((%s as Some).0)" % mir.place_str(f, rv["place"]))
+                        pay = ("p", "(%s as Some).0" % mir.place_str(f, rv["place"]))
                         for e in some_edges:
                             out.append((s, e, [("lt", pay, hi)]))
         elif ds[0][0] == "call":
@@ -213,9 +255,9 @@ def _range_end(f, o, depth=6):
             return None
         rv = d[3]["rv"]
         if rv["k"] == "ref":
-            o = {"k": "copy", "place": rv["place"]}
-            if rv["place"]["proj"]:
+            if any(e["k"] != "deref" for e in rv["place"]["proj"]):
                 return None
+            o = {"k": "copy", "place": {"local": rv["place"]["local"], "proj": []}}
             continue
         if rv["k"] == "use":
             o = rv["op"]
@@ -314,6 +356,14 @@ def _lt(facts, a, b, depth=3):
             return True
         if fa[0] in ("le", "eq") and fa[1] == a and fa[2] != a and _lt(facts, fa[2], b, depth - 1):
             return True
+    # a < X - k  (k >= 0)  gives  a < X
+    for fa in facts:
+        if fa[0] == "lt" and fa[1] == a and fa[2][0] == "add" and fa[2][2] <= 0 and fa[2][1] == b:
+            return True
+    # X - k < X  when the subtraction did not wrap: 0 < X known (k == 1), or k <= some known lower bound of X
+    if a[0] == "add" and a[2] < 0 and a[1] == b:
+        if _le(facts, ("c", -a[2]), b, depth - 1):
+            return True
     # c < len v  from  k <= len v / len v == k with c < k
     if a[0] == "c":
         for fa in facts:
@@ -338,6 +388,15 @@ def _le(facts, a, b, depth=3):
     # x + 1 <= b  from  x < b
     if a[0] == "add" and a[2] == 1 and _lt(facts, a[1], b, depth):
         return True
+    # c <= b  from  k < b with c <= k + 1,  k <= b with c <= k,  b == k
+    if a[0] == "c":
+        for fa in facts:
+            if fa[0] == "lt" and fa[2] == b and fa[1][0] == "c" and a[1] <= fa[1][1] + 1:
+                return True
+            if fa[0] == "le" and fa[2] == b and fa[1][0] == "c" and a[1] <= fa[1][1]:
+                return True
+            if fa[0] == "eq" and fa[1] == b and fa[2][0] == "c" and a[1] <= fa[2][1]:
+                return True
     return False
 
 
@@ -432,3 +491,22 @@ def _show(tm):
     if tm[0] == "add":
         return "%s + %d" % (_show(tm[1]), tm[2])
     return str(tm)
+
+
+def bounds_check_holds(f, b, t):
+    """a compiler-inserted `index < len` check of a slice / array access that a dominating test already established: reason or None"""
+    cl = mir.op_place(t["cond"]) if t.get("cond") else None
+    if cl is None or cl["proj"]:
+        return None
+    for st in reversed(f.blocks[b]["stmts"]):
+        if st["k"] == "assign" and st["place"]["local"] == cl["local"] and not st["place"]["proj"] and st["rv"]["k"] == "binop" and st["rv"]["op"] == "Lt":
+            i, n = term(f, st["rv"]["l"]), term(f, st["rv"]["r"])
+            if i is None or n is None:
+                return None
+            if i[0] == "c" and n[0] == "c":
+                return "constant index %d into %d elements" % (i[1], n[1]) if i[1] < n[1] else None
+            facts = facts_at(f, b)
+            if _lt(facts, i, n):
+                return "the index is below the length by a test that dominates the access (%s < %s)" % (_show(i), _show(n))
+            return None
+    return None
